@@ -22,7 +22,7 @@ def _ground_terms(forms):
             continue
         if z3.is_app(e):
             d = e.decl()
-            if d.kind() == z3.Z3_OP_UNINTERPRETED:
+            if d.kind() in (z3.Z3_OP_UNINTERPRETED, z3.Z3_OP_RECURSIVE):
                 if e.num_args() == 0:
                     out.setdefault(e.sort().name(), {})[e.get_id()] = e
                 else:
